@@ -363,13 +363,32 @@ func TestSizes(t *testing.T) {
 					}
 					c.CallTimeoutMs = 8000
 				}
+			} else if caseNo%16 == 10 {
+				// Writer built by NewWriter(WriterConfig): the configured BatchTimeout applies to a lone message on an idle writer
+				c.ViaNewWriter = true
+				c.Async = rapid.Bool().Draw(t, "cfgAsync")
+				c.BatchTimeoutMs = rapid.IntRange(5, 60).Draw(t, "cfgTimeout")
+				c.BatchSize, c.BatchBytes = 100, 1<<20
+				c.Faults = nil
+				c.StrictLateMs = 600
+				proto := c.Callers[0][0].Msgs[0]
+				proto.ValueSize, proto.ForceTopic = 16, ""
+				if !c.WriterTopic {
+					proto.Topic = c.Topics[0]
+				}
+				c.Callers = [][]wsim.Call{{{Msgs: []wsim.Msg{proto}}}}
+				c.SettleMs = c.BatchTimeoutMs + 3000
 			} else {
 				c.Async = false
+				c.ViaNewWriter = rapid.IntRange(0, 3).Draw(t, "viaNewWriter") == 0
 			}
 		default:
 			c.Async = false
 		}
 		labels, nt := check(t, c)
+		if c.ViaNewWriter {
+			labels = append(labels, "via_new_writer")
+		}
 		ev.Case(fmt.Sprintf("bs%d bb%d bt%d async%v %s callers%d labels%v", c.BatchSize, c.BatchBytes, c.BatchTimeoutMs, c.Async, c.Balancer, len(c.Callers), labels), nt, labels...)
 		ev.Sample(c)
 	})
